@@ -271,8 +271,19 @@ def family_chain3(wrapper):
                 yield PRE + adef + wrap(wrapper, bdef + ddef + '\\zzD(' + arg + ')') + ':\\zzD(pq)', 1
 
 
+def family_expandafter(wrapper):
+    """\\expandafter over parameterless and parameterised macros, then the macros are used again (their stored
+    definitions must be untouched)"""
+    for vdef in ('\\def\\zzV{xy}', '\\gdef\\zzV{xy}', '\\newcommand{\\zzV}{xy}' if wrapper == 'top' else '\\def\\zzV{x{y}}'):
+        for use in ('\\expandafter\\zzW\\zzV ', '\\expandafter\\zzW\\zzV |\\zzV ', '\\expandafter\\zzW\\zzV |\\expandafter\\zzW\\zzV |\\zzV ',
+                    '\\expandafter\\zzW\\expandafter{\\zzV }|\\zzV ', '\\expandafter\\zzA\\zzV .q;|\\zzV |\\zzA \\zzV .r;'):
+            yield PRE + '\\def\\zzA#1.#2;{a<#2|#1>}' + wrap(wrapper, vdef + use) + ':', 1
+
+
 def programs(block):
     fam = block[0]
+    if fam == 'expandafter':
+        return family_expandafter(block[1])
     if fam == 'single':
         return family_single(block[1], block[2], block[3])
     if fam == 'chain':
@@ -399,6 +410,7 @@ def run(tier, seed, rep):
             blocks.append(('let', pt, w, not quick))
     for w in WRAPPERS:
         blocks.append(('charlet', w))
+        blocks.append(('expandafter', w))
         if not quick:
             blocks.append(('chain3', w))
     NS = 6
